@@ -9,6 +9,8 @@ CONSTANTS
   AllowBreak = TRUE
   AllowStall = FALSE
   Cap = 1
+  AllowTopo = TRUE
+  Warm = FALSE
   AllowRemove = TRUE
   FixSenderPrune = FALSE
   FixGuardedDelete = FALSE
